@@ -614,7 +614,18 @@ func (in *Interp) symSelect(get func(i int) value, n int, idx *Term, w uint8) va
 		if hi >= uint64(n) {
 			hi = uint64(n) - 1
 		}
-		if hi-lo+1 > maxSymIndexSpan {
+		tooBig := hi-lo+1 > maxSymIndexSpan
+		if !tooBig && in.noFork == 0 {
+			// constant table: an ite-chain is cheap. Symbolic cells (e.g. a message buffer indexed by a
+			// compression pointer target): fork over the feasible index values instead of nesting chains.
+			for i := lo; i <= hi; i++ {
+				if _, isT := get(int(i)).(*Term); isT {
+					tooBig = true
+					break
+				}
+			}
+		}
+		if tooBig {
 			c := in.concretize(idx, "index")
 			return get(int(c))
 		}
